@@ -387,6 +387,26 @@ def build_lib(d):
     starts = [dec(s) for s in d["starts"]]
     finals = [dec(s) for s in d["finals"]]
     extra_syms = {dec(a) for a in d.get("symbols", [])}
+    if how == "ctor_tf":
+        # the textbook 5-tuple: every component handed to the constructor, the transition function built beforehand
+        # from State / Symbol objects of its own (equal to, not identical with, those of the other components)
+        from pyformlang.finite_automaton import (State, Symbol, TransitionFunction,
+                                                 NondeterministicTransitionFunction)
+        tf = TransitionFunction() if cls is DeterministicFiniteAutomaton else NondeterministicTransitionFunction()
+        all_states, syms = list(states) + starts + finals, set(extra_syms)
+        for p, a, q in d["trans"]:
+            tf.add_transition(State(dec(p)), Epsilon() if a is None else Symbol(dec(a)), State(dec(q)))
+            all_states += [dec(p), dec(q)]
+            if a is not None:
+                syms.add(dec(a))
+        kw = {"states": set(all_states), "input_symbols": syms, "transition_function": tf,
+              "final_states": set(finals)}
+        if cls is DeterministicFiniteAutomaton:
+            if starts:
+                kw["start_state"] = starts[0]
+        else:
+            kw["start_state"] = set(starts)
+        return cls(**kw)
     if how == "ctor":
         kw = {"states": set(states), "final_states": set(finals)}
         if extra_syms:
@@ -403,16 +423,39 @@ def build_lib(d):
         # extra (isolated) states can only be declared through the constructor
         fa = cls(states=set(states)) if states else cls()
         order = d.get("order", "tsf")
+        count = [0]
+        first_sym = [dec(a) for _p, a, _q in d["trans"] if a is not None][:1]
+
+        def ask():
+            """how == "mut_q": the automaton answers queries while it is being built (their results are not used)"""
+            if how != "mut_q":
+                return
+            count[0] += 1
+            fa.accepts([])
+            fa.accepts(first_sym)
+            fa.is_deterministic()
+            if count[0] % 3 == 0 and len(d["trans"]) <= 8:
+                fa.is_equivalent_to(fa.copy())
+                fa.minimize()
+        # (a description derived from another one may have gained a transition equal to a scaffolding one)
+        removed = [t for t in d.get("removed", []) if t not in d["trans"]]
         for step in order:
             if step == "t":
-                for p, a, q in d["trans"]:
+                for p, a, q in d["trans"] + removed:
                     fa.add_transition(dec(p), Epsilon() if a is None else dec(a), dec(q))
+                    ask()
+                # scaffolding transitions are taken away again
+                for p, a, q in removed:
+                    fa.remove_transition(dec(p), Epsilon() if a is None else dec(a), dec(q))
+                    ask()
             elif step == "s":
                 for s in starts:
                     fa.add_start_state(s)
+                    ask()
             elif step == "f":
                 for s in finals:
                     fa.add_final_state(s)
+                    ask()
         for a in extra_syms:
             fa.add_symbol(a)
     return fa
